@@ -7,6 +7,7 @@ import Jqawk.Model.Eval
 import Jqawk.Model.Parser
 import Jqawk.Lemmas.ReadOnlyDoc
 import Jqawk.Lemmas.AssignFrame
+import Jqawk.Lemmas.AssignCreate
 
 namespace Jqawk.C09
 open Jqawk
@@ -198,15 +199,16 @@ theorem compound_desugars (l r : Expr) (op : Token) (t : Tag)
 
   Clause: "Evaluating an expression that contains no assignment and no mutating method call
   never changes the input document."  Proved over the real evaluator by one mutual induction
-  (Lemmas/ReadOnly.lean, `allRO`).  **Finding**: as stated the clause is false for the model and
-  for the Go code — the member/index step turns an *unset* base into a fresh empty array/object
-  (src/evaluator.go:582-590), so `$.u.x` changes the document when `$.u` holds an unset value
-  (`{ $.u = x; y = $.u.x }` prints `"u": {}` instead of `"u": null`; see the `example` with
-  `exFill` below).  The theorems are therefore named `…_partial`: every cell that holds a value
-  keeps it, every array keeps its cells and every object its members; an unset cell is still
-  unset or holds a fresh empty container; everything else is allocation.  For a document
-  without unset parts the rendering is unchanged (`readonly_document_unchanged`: full strength). -/
+  (Lemmas/ReadOnly.lean, `allRO`): whatever way the evaluation ends, every cell that existed
+  keeps its value (an unset cell stays unset), every array keeps its cells and every object its
+  members; everything else is allocation (`HeapPreserved`).  Hence the rendering of every
+  document that lies in the old heap is unchanged (`readonly_document_unchanged`).
 
+  History: the first version of these theorems was `…_partial` — the member/index step used to
+  turn an *unset* base into a fresh empty array/object, so `{ $.u = x; y = $.u.x }` changed
+  `"u": null` into `"u": {}`.  The step was repaired (Go and model): an unset base now yields a
+  stand-in for a missing member, and becomes a container only when that member is assigned to
+  (`createSpeculative`).  See the `example` with `exFill` below. -/
 
 /-- what a read-only evaluation leaves unchanged, read off a result -/
 def Unchanged {α : Type} (s : St) : Res α → Prop
@@ -233,19 +235,18 @@ theorem Unchanged.of_QR {α : Type} {k : Bool} {s : St} {r : Res α} (h : QR k t
 /-- Clause "evaluating an expression that contains no assignment and no mutating method call
     never changes the input document" — for ANY program, fuel and state, and an expression
     without assignment, `++`/`--` and without any call (`Expr.readOnly false`): whatever way the
-    evaluation ends, every cell that held a value holds the same value, every array has the same
-    cells, every object the same members (an unset cell may have become a fresh empty
-    array/object: the finding above); every variable binding and `$` denote the same cells.
+    evaluation ends, every cell that existed holds the same value, every array has the same
+    cells, every object the same members; every variable binding and `$` denote the same cells.
     Member and index chains, reads of missing members (`$.a.b.c`: nothing is created), literals,
     operators, `is`, `match` expressions with such bodies are all covered. -/
-theorem readonly_expr_partial (prog : Program) (n : Nat) (e : Expr) (s : St)
+theorem readonly_expr (prog : Program) (n : Nat) (e : Expr) (s : St)
     (he : Expr.readOnly false e = true) : Unchanged s (evalExpr prog n e s) :=
   (Unchanged.of_QR ((allRO prog false (fun h => by cases h) n).expr true e he s) (fun h => by cases h)).1
 
 /-- the same for statements (match bodies, rule bodies): blocks, `print`, `if`, `while`, `for`,
     `return`, `break`/`continue`/`next`/`exit` over read-only expressions; `for … in` is excluded
     (it assigns its loop variables) -/
-theorem readonly_stmt_partial (prog : Program) (n : Nat) (st : Stmt) (s : St)
+theorem readonly_stmt (prog : Program) (n : Nat) (st : Stmt) (s : St)
     (he : Stmt.readOnly false st = true) : Unchanged s (evalStmt prog n st s) :=
   (Unchanged.of_QR ((allRO prog false (fun h => by cases h) n).stmt true st he s) (fun h => by cases h)).1
 
@@ -258,7 +259,7 @@ theorem readonly_stmt_partial (prog : Program) (n : Nat) (st : Stmt) (s : St)
     preserved).  Calls of user functions by name and of `printf`/`json`/`num` are NOT covered:
     the callee would be an arbitrary variable, which in an arbitrary state may hold `push`
     bound to any array. -/
-theorem readonly_methods_partial (prog : Program) (hfn : prog.FnsRO) (n : Nat) (e : Expr) (s : St)
+theorem readonly_methods (prog : Program) (hfn : prog.FnsRO) (n : Nat) (e : Expr) (s : St)
     (hwf : ObjsInRange s.heap) (he : Expr.readOnly true e = true) :
     Unchanged s (evalExpr prog n e s) ∧ After (fun s' => ObjsInRange s'.heap) (evalExpr prog n e s) := by
   have h := Unchanged.of_QR ((allRO prog true (fun _ => hfn) n).expr true e he s) (fun _ => hwf)
@@ -270,32 +271,34 @@ theorem readonly_methods_partial (prog : Program) (hfn : prog.FnsRO) (n : Nat) (
   | oof => trivial
 
 /-- statements with method calls -/
-theorem readonly_methods_stmt_partial (prog : Program) (hfn : prog.FnsRO) (n : Nat) (st : Stmt) (s : St)
+theorem readonly_methods_stmt (prog : Program) (hfn : prog.FnsRO) (n : Nat) (st : Stmt) (s : St)
     (hwf : ObjsInRange s.heap) (he : Stmt.readOnly true st = true) :
     Unchanged s (evalStmt prog n st s) :=
   (Unchanged.of_QR ((allRO prog true (fun _ => hfn) n).stmt true st he s) (fun _ => hwf)).1
 
-/-- in particular: cells that hold a value keep it -/
-theorem readonly_set_cells_unchanged {α : Type} {s : St} {r : Res α} (h : Unchanged s r) (c : CellId)
-    (hc : s.heap.get c ≠ .unknown) : After (fun s' => s'.heap.get c = s.heap.get c) r := by
+/-- in particular: every allocated cell keeps its value -/
+theorem readonly_cells_unchanged {α : Type} {s : St} {r : Res α} (h : Unchanged s r) (c : CellId)
+    (hc : c < s.heap.cells.size) : After (fun s' => s'.heap.get c = s.heap.get c) r := by
   cases r with
   | ok a s' => exact h.1.get c hc
   | err e s' => exact h.1.get c hc
   | oof => trivial
 
-/-- Clause "… never changes the input document", at full strength for a document without unset
-    parts (`DocSolid`: e.g. anything loaded from JSON): the cell keeps its value and that value
-    has the same JSON form (`ToGoValue`, what `-o` and `json()` produce) in the new heap; `$`
-    still denotes the same cell.  Holds for the result of any evaluation that is `Unchanged`,
-    i.e. by `readonly_expr_partial` … `readonly_methods_stmt_partial` for every read-only
+/-- Clause "… never changes the input document": the cell keeps its value and that value has
+    the same JSON form (`ToGoValue`, what `-o` and `json()` produce) in the new heap; `$` still
+    denotes the same cell.  The only hypothesis is that the document lies in the heap
+    (`DocAllocated`: no dangling array/object/cell ids in it — true for anything loaded from
+    JSON, `newValueJson_docAllocated`); with a dangling id the "document" would include
+    whatever is allocated there later.  Holds for the result of any evaluation that is
+    `Unchanged`, i.e. by `readonly_expr` … `readonly_methods_stmt` for every read-only
     expression or statement. -/
 theorem readonly_document_unchanged {α : Type} {s : St} {r : Res α} (h : Unchanged s r) (c : CellId)
-    (hdoc : DocSolid s.heap (s.heap.get c)) :
+    (hc : c < s.heap.cells.size) (hdoc : DocAllocated s.heap (s.heap.get c)) :
     After (fun s' => s'.ruleRoot = s.ruleRoot ∧ s'.heap.get c = s.heap.get c ∧
       toJValTop s'.heap (s'.heap.get c) = toJValTop s.heap (s.heap.get c)) r := by
   cases r with
-  | ok a s' => exact ⟨h.2.2.2, toJValTop_cell_preserved h.1 c hdoc⟩
-  | err e s' => exact ⟨h.2.2.2, toJValTop_cell_preserved h.1 c hdoc⟩
+  | ok a s' => exact ⟨h.2.2.2, toJValTop_cell_preserved h.1 c hc hdoc⟩
+  | err e s' => exact ⟨h.2.2.2, toJValTop_cell_preserved h.1 c hc hdoc⟩
   | oof => trivial
 
 /-! #### examples: the hypotheses are satisfiable, and needed -/
@@ -363,18 +366,19 @@ example : (match evalExpr Program.empty 12 exRead exSt with
     | _ => false) = true := by decide +kernel
 
 
-/-- `$.u.x` — a pure read … -/
+/-- `$.u.x` where `$.u` is unset — a pure read … -/
 def exFill : Expr := dot (dot dollar b!"u") b!"x"
 
 example : Expr.readOnly false exFill = true := by decide +kernel
 
-/-- … that changes the document: the unset member `u` becomes `{}` -/
+/-- … which (since the repair of the member step) leaves `$.u` unset, every old cell, array and
+    object as it was, and the document rendering the same (`"u": null`) -/
 example : (match evalExpr Program.empty 12 exFill exSt with
     | .ok _ s' =>
-      (exHeap.get 5 == .unknown) && (s'.heap.get 5 == .obj 1) && (s'.heap.obj 1 == []) &&
+      (exHeap.get 5 == .unknown) && (s'.heap.get 5 == .unknown) && sameOld exHeap s'.heap &&
       (match toJValTop exHeap (exHeap.get 0), toJValTop s'.heap (s'.heap.get 0) with
        | .ok a, .ok b => Json.marshalIndent a == b!"{\n  \"a\": [\n    1,\n    2\n  ],\n  \"s\": \"hi\",\n  \"u\": null\n}" &&
-                         Json.marshalIndent b == b!"{\n  \"a\": [\n    1,\n    2\n  ],\n  \"s\": \"hi\",\n  \"u\": {}\n}"
+                         Json.marshalIndent b == Json.marshalIndent a
        | _, _ => false)
     | _ => false) = true := by decide +kernel
 
@@ -395,9 +399,9 @@ example : Expr.readOnly true exPush = false ∧
      | _ => false) = true := by decide +kernel
 
 
-/-- the sub-document `$.a = [1, 2]` of the example heap is solid -/
-theorem exHeap_a_solid : DocSolid exHeap (exHeap.get 1) := by
-  apply DocSolid.of_closed exHeap _ (fun v => v = exHeap.get 1 ∨ v = exHeap.get 2 ∨ v = exHeap.get 3)
+/-- the sub-document `$.a = [1, 2]` of the example heap lies in the heap -/
+theorem exHeap_a_allocated : DocAllocated exHeap (exHeap.get 1) := by
+  apply DocAllocated.of_closed exHeap _ (fun v => v = exHeap.get 1 ∨ v = exHeap.get 2 ∨ v = exHeap.get 3)
     (.inl rfl)
   · intro v d w hs hd hw
     rcases hs with rfl | rfl | rfl
@@ -417,8 +421,6 @@ theorem exHeap_a_solid : DocSolid exHeap (exHeap.get 1) := by
       rw [this] at hd; cases hd
     · have : (exHeap.get 3).cont? = none := by decide +kernel
       rw [this] at hd; cases hd
-  · intro v hs
-    rcases hs with rfl | rfl | rfl <;> decide +kernel
   · intro a hs
     have : a = 0 := by
       rcases hs with h | h | h
@@ -428,7 +430,15 @@ theorem exHeap_a_solid : DocSolid exHeap (exHeap.get 1) := by
         rw [this] at h; cases h
       · have : exHeap.get 3 = .num (F64.add F64.one F64.one) := by decide +kernel
         rw [this] at h; cases h
-    subst this; decide +kernel
+    subst this
+    refine ⟨by decide +kernel, ?_⟩
+    have : (exHeap.arr 0).toList = [2, 3] := by decide +kernel
+    rw [this]
+    intro c hc
+    have hsz : exHeap.cells.size = 6 := by decide +kernel
+    rw [hsz]
+    simp only [List.mem_cons, List.not_mem_nil, or_false] at hc
+    rcases hc with rfl | rfl <;> decide
   · intro o hs
     rcases hs with h | h | h
     · have : exHeap.get 1 = .arr 0 := by decide +kernel
@@ -457,15 +467,15 @@ theorem exHeap_objsInRange : ObjsInRange exHeap := by
   · rw [Heap.obj_of_not_valid exHeap o ho] at hl
     simp [objLookup] at hl
 
-/-- all hypotheses of `readonly_methods_partial` and `readonly_document_unchanged` hold for the
+/-- all hypotheses of `readonly_methods` and `readonly_document_unchanged` hold for the
     example (`exRead` contains member and index chains, operators, a read of a missing member
     and two method calls), so: the sub-document `$.a` renders as before -/
 example : After (fun s' => s'.ruleRoot = exSt.ruleRoot ∧ s'.heap.get 1 = exHeap.get 1 ∧
       toJValTop s'.heap (s'.heap.get 1) = toJValTop exHeap (exHeap.get 1))
     (evalExpr Program.empty 12 exRead exSt) :=
   readonly_document_unchanged
-    (readonly_methods_partial Program.empty (fun f hf => by simp [Program.empty] at hf) 12 exRead exSt
-      exHeap_objsInRange (by decide +kernel)).1 1 exHeap_a_solid
+    (readonly_methods Program.empty (fun f hf => by simp [Program.empty] at hf) 12 exRead exSt
+      exHeap_objsInRange (by decide +kernel)).1 1 (by decide +kernel) exHeap_a_allocated
 
 /-- `ObjsInRange` is needed: in an ill-formed heap where the member `foo` of `$` refers to a cell
     that is not allocated yet (id 5), the read-only call `$.foo($.a.push is null)` finds nothing
@@ -499,13 +509,11 @@ example :
 theorem speculative_preserved {h h' : Heap} (p : HeapPreserved h h') (c : CellId)
     (hc : c < h.cells.size) (hns : (h.get c).speculative = false) :
     (h'.get c).speculative = false := by
-  by_cases hu : h.get c = .unknown
-  · rcases p.unset c hc hu with e | ⟨a, e, _⟩ | ⟨o, e, _⟩ <;> rw [e] <;> rfl
-  · rw [p.get c hu]; exact hns
+  rw [p.get c hc]; exact hns
 
 /-- Clause "assigning … changes exactly the addressed location … and leaves every other part of
     every value unchanged", for a target that exists: `l = r` with read-only `l`, `r` (method
-    calls allowed under the hypotheses of `readonly_methods_partial`: take `k = true`), where
+    calls allowed under the hypotheses of `readonly_methods`: take `k = true`), where
     `l` evaluates to the cell `lc` and `lc` does not stand for a missing member when the store
     happens.  The whole assignment is: evaluate `l`, evaluate `r` (both read-only), then write
     the copy of `r`'s value into `lc` — no other cell that held a value, no array and no object
@@ -591,5 +599,213 @@ example :
     r1 = .ok 2 (resState r1) ∧ r2 = .ok 8 (resState r2) ∧
     ((resState r2).heap.get 2).speculative = false := by
   refine ⟨eq_ok_of_resVal (by decide +kernel), eq_ok_of_resVal (by decide +kernel), by decide +kernel⟩
+
+
+/-! ### the frame rule for an assignment that creates its target
+
+  `o.new = e`, `a[len+k] = e`, and `u.k = e` / `u[i] = e` for an unset `u`: the target expression
+  evaluates to a stand-in cell `sc` (value `nil` remembering the base cell `b` and the key), and
+  the store goes through one level of `createSpeculativeObjects`.  (Two or more missing levels,
+  `o.x.y = e` with `o.x` missing, are not covered here.) -/
+
+/-- target and source of an assignment are read-only: evaluating both changes nothing -/
+theorem readonly_pair_preserved (prog : Program) (k : Bool) (n : Nat) (l r : Expr) (s s1 s2 : St)
+    (lc rc : CellId) (hk : k = true → prog.FnsRO ∧ ObjsInRange s.heap)
+    (hl : Expr.readOnly k l = true) (hr : Expr.readOnly k r = true)
+    (h1 : evalExpr prog n l s = .ok lc s1) (h2 : evalExpr prog n r s1 = .ok rc s2) :
+    HeapPreserved s.heap s2.heap := by
+  have all := allRO prog k (fun e => (hk e).1) n
+  have q1 := all.expr true l hl s
+  rw [h1] at q1
+  obtain ⟨r1, i1⟩ := q1 (fun e => (hk e).2)
+  have q2 := all.expr true r hr s1
+  rw [h2] at q2
+  obtain ⟨r2, _⟩ := q2 i1
+  exact r1.heap.trans r2.heap
+
+/-- Clause "assigning to a … member, index … changes exactly the addressed location — creating
+    missing intermediate objects (for string keys) or arrays (for numeric indices) … — and leaves
+    every other part of every value … unchanged", frame part, for every creating assignment with
+    one missing level: evaluating target and source changes nothing (`HeapPreserved s s2`), and
+    the store itself leaves every cell that existed unchanged except the stand-in cell `sc`
+    (which becomes the new member) and the base cell `b` if it was unset (it receives the new
+    container); every array other than the one `b` holds and every object other than the one `b`
+    holds keep their contents (`HeapFrame`).  `hidx` says that for an array base the index is at
+    or past the end — which is why the member was missing. -/
+theorem assign_create_frame (prog : Program) (k : Bool) (n : Nat) (l r : Expr) (op : Token)
+    (s s1 s2 : St) (sc rc b : CellId) (key : Key)
+    (hk : k = true → prog.FnsRO ∧ ObjsInRange s.heap)
+    (hl : Expr.readOnly k l = true) (hr : Expr.readOnly k r = true) (hop : op.tag = .equal)
+    (h1 : evalExpr prog n l s = .ok sc s1) (h2 : evalExpr prog n r s1 = .ok rc s2)
+    (hsv : s2.heap.get sc = .nil (some ⟨b, key⟩)) (hpv : ∀ sp, s2.heap.get b ≠ .nil sp)
+    (hidx : ∀ a x i, s2.heap.get b = .arr a → key = .num x →
+      resolveIndex (s2.heap.arr a).size x.toGoInt = some i → (s2.heap.arr a).size ≤ i) :
+    HeapPreserved s.heap s2.heap ∧
+    After (fun s' => HeapFrame (fun d => d = sc ∨ (d = b ∧ s2.heap.get b = .unknown))
+        (fun a => s2.heap.get b = .arr a) (fun o => s2.heap.get b = .obj o) s2.heap s'.heap)
+      (evalExpr prog (n + 2) (.binary l r op) s) := by
+  refine ⟨readonly_pair_preserved prog k n l r s s1 s2 sc rc hk hl hr h1 h2, ?_⟩
+  have h := assign_create_heapFrame prog n l r op s s1 s2 sc rc b key hop h1 h2 hsv hpv hidx
+  cases hr' : evalExpr prog (n + 2) (.binary l r op) s with
+  | ok a s' => rw [hr'] at h; exact h
+  | err e s' => rw [hr'] at h; exact h
+  | oof => trivial
+
+/-- "creating missing intermediate objects (for string keys)": `o.new = e` where `o` holds an
+    object.  Exactly: the object gets the member `new ↦ sc` (`objInsert`: an existing key keeps
+    its position, a new one is appended; every other key keeps its cell,
+    `objLookup_objInsert_other`), and `sc` receives the copy of the value. -/
+theorem assign_new_member (prog : Program) (n : Nat) (l r : Expr) (op : Token) (s s1 s2 : St)
+    (sc rc b : CellId) (key : Key) (o : ObjId) (hop : op.tag = .equal)
+    (h1 : evalExpr prog n l s = .ok sc s1) (h2 : evalExpr prog n r s1 = .ok rc s2)
+    (hsv : s2.heap.get sc = .nil (some ⟨b, key⟩)) (hb : s2.heap.get b = .obj o) :
+    evalExpr prog (n + 2) (.binary l r op) s =
+      match copyVal (s2.heap.get rc) with
+      | .ok w => .ok sc { s2 with heap :=
+          ((s2.heap.setObj o (objInsert (s2.heap.obj o) key.val.str! sc)).set sc w) }
+      | .error m => Jqawk.throwRt l.token.pos m { s2 with heap :=
+          (s2.heap.setObj o (objInsert (s2.heap.obj o) key.val.str! sc)) } := by
+  rw [assign_create_eq prog n l r op s s1 s2 sc rc b key hop h1 h2 hsv (by rw [hb]; simp)]
+  have : createTarget s2.heap b key = (s2.heap, .obj o) := by unfold createTarget; rw [hb]
+  rw [this]
+  rfl
+
+/-- "padding arrays with null up to a new index": `a[i] = e` with `i ≥ a.length()` (`i` already
+    resolved: a negative index counts from the end, `negative_index`).  The result heap is
+    `padHeap` (described by `padHeap_spec`: the array keeps its old cells, then `i - len` fresh
+    cells holding null, then one more fresh cell; nothing else changes) with that last cell
+    holding the copy of the value. -/
+theorem assign_array_pad (prog : Program) (n : Nat) (l r : Expr) (op : Token) (s s1 s2 : St)
+    (sc rc b : CellId) (key : Key) (a : ArrId) (x : F64) (i : Nat) (hop : op.tag = .equal)
+    (h1 : evalExpr prog n l s = .ok sc s1) (h2 : evalExpr prog n r s1 = .ok rc s2)
+    (hsv : s2.heap.get sc = .nil (some ⟨b, key⟩)) (hb : s2.heap.get b = .arr a)
+    (hkey : key = .num x) (hri : resolveIndex (s2.heap.arr a).size x.toGoInt = some i)
+    (hge : (s2.heap.arr a).size ≤ i) (hlim : i ≤ fillLimit) :
+    evalExpr prog (n + 2) (.binary l r op) s =
+      match copyVal ((padHeap s2.heap a i (s2.heap.get sc)).get rc) with
+      | .ok w => .ok (s2.heap.cells.size + (i - (s2.heap.arr a).size)) { s2 with heap :=
+          ((padHeap s2.heap a i (s2.heap.get sc)).set (s2.heap.cells.size + (i - (s2.heap.arr a).size)) w) }
+      | .error m => Jqawk.throwRt l.token.pos m { s2 with heap := (padHeap s2.heap a i (s2.heap.get sc)) } := by
+  rw [assign_create_eq prog n l r op s s1 s2 sc rc b key hop h1 h2 hsv (by rw [hb]; simp)]
+  have : createTarget s2.heap b key = (s2.heap, .arr a) := by unfold createTarget; rw [hb]
+  rw [this]
+  subst hkey
+  have hsc : sc < s2.heap.cells.size := Heap.lt_of_get_ne_unknown _ _ (by rw [hsv]; simp)
+  simp only [Key.val]
+  rw [setMember_arr_fill s2.heap a x sc i hri hge hlim hsc]
+  rfl
+
+/-- `u.k = e` for an unset `u`: `u` becomes a fresh object whose only member is `k`
+    (`unsetObjHeap`, described by `unsetObjHeap_spec`), holding the copy of the value -/
+theorem assign_unset_base_object (prog : Program) (n : Nat) (l r : Expr) (op : Token) (s s1 s2 : St)
+    (sc rc b : CellId) (key : Key) (kname : Bytes) (hop : op.tag = .equal)
+    (h1 : evalExpr prog n l s = .ok sc s1) (h2 : evalExpr prog n r s1 = .ok rc s2)
+    (hsv : s2.heap.get sc = .nil (some ⟨b, key⟩)) (hb : s2.heap.get b = .unknown)
+    (hkey : key = .str kname) :
+    evalExpr prog (n + 2) (.binary l r op) s =
+      match copyVal ((unsetObjHeap s2.heap b kname sc).get rc) with
+      | .ok w => .ok sc { s2 with heap := (unsetObjHeap s2.heap b kname sc).set sc w }
+      | .error m => Jqawk.throwRt l.token.pos m { s2 with heap := unsetObjHeap s2.heap b kname sc } := by
+  rw [assign_create_eq prog n l r op s s1 s2 sc rc b key hop h1 h2 hsv (by rw [hb]; simp)]
+  subst hkey
+  have : createTarget s2.heap b (.str kname) =
+      ((s2.heap.allocObj []).2.set b (.obj s2.heap.objs.size), .obj s2.heap.objs.size) := by
+    unfold createTarget; rw [hb]
+  rw [this]
+  have hobj : ((s2.heap.allocObj []).2.set b (.obj s2.heap.objs.size)).obj s2.heap.objs.size = [] := by
+    simp [Heap.set, Heap.allocObj, Heap.obj, Array.getD_eq_getD_getElem?]
+  simp only [setMember, Key.val, Val.str!, hobj, objInsert, unsetObjHeap]
+  rfl
+
+/-- `u[i] = e` for an unset `u` and `i ≥ 0`: `u` becomes a fresh array of length `i + 1`: nulls,
+    then the copy of the value (`padHeap` on the fresh empty array; a negative `i` is the error
+    "index out of range", `index_before_start_errors`) -/
+theorem assign_unset_base_array (prog : Program) (n : Nat) (l r : Expr) (op : Token) (s s1 s2 : St)
+    (sc rc b : CellId) (key : Key) (x : F64) (i : Nat) (hop : op.tag = .equal)
+    (h1 : evalExpr prog n l s = .ok sc s1) (h2 : evalExpr prog n r s1 = .ok rc s2)
+    (hsv : s2.heap.get sc = .nil (some ⟨b, key⟩)) (hb : s2.heap.get b = .unknown)
+    (hkey : key = .num x) (hri : resolveIndex 0 x.toGoInt = some i) (hlim : i ≤ fillLimit) :
+    evalExpr prog (n + 2) (.binary l r op) s =
+      match copyVal ((padHeap ((s2.heap.allocArr #[]).2.set b (.arr s2.heap.arrs.size))
+          s2.heap.arrs.size i (s2.heap.get sc)).get rc) with
+      | .ok w => .ok (s2.heap.cells.size + i) { s2 with heap :=
+          ((padHeap ((s2.heap.allocArr #[]).2.set b (.arr s2.heap.arrs.size))
+            s2.heap.arrs.size i (s2.heap.get sc)).set (s2.heap.cells.size + i) w) }
+      | .error m => Jqawk.throwRt l.token.pos m { s2 with heap :=
+          (padHeap ((s2.heap.allocArr #[]).2.set b (.arr s2.heap.arrs.size))
+            s2.heap.arrs.size i (s2.heap.get sc)) } := by
+  rw [assign_create_eq prog n l r op s s1 s2 sc rc b key hop h1 h2 hsv (by rw [hb]; simp)]
+  subst hkey
+  have : createTarget s2.heap b (.num x) =
+      ((s2.heap.allocArr #[]).2.set b (.arr s2.heap.arrs.size), .arr s2.heap.arrs.size) := by
+    unfold createTarget; rw [hb]
+  rw [this]
+  have harr : ((s2.heap.allocArr #[]).2.set b (.arr s2.heap.arrs.size)).arr s2.heap.arrs.size = #[] := by
+    simp [Heap.set, Heap.allocArr, Heap.arr, Array.getD_eq_getD_getElem?]
+  have hsc : sc < s2.heap.cells.size := Heap.lt_of_get_ne_unknown _ _ (by rw [hsv]; simp)
+  have hne : sc ≠ b := by intro e; rw [e, hb] at hsv; cases hsv
+  have hsz : ((s2.heap.allocArr #[]).2.set b (.arr s2.heap.arrs.size)).cells.size = s2.heap.cells.size := by
+    rw [Heap.size_set]; rfl
+  have hget : ((s2.heap.allocArr #[]).2.set b (.arr s2.heap.arrs.size)).get sc = s2.heap.get sc := by
+    rw [Heap.get_set_ne' _ _ _ _ hne]; rfl
+  simp only [Key.val]
+  rw [setMember_arr_fill _ s2.heap.arrs.size x sc i (by rw [harr]; exact hri)
+    (by rw [harr]; exact Nat.zero_le _) hlim (by rw [hsz]; exact hsc)]
+  simp only [harr, hsz, hget, Array.size_empty, Nat.sub_zero]
+  rfl
+
+/-! #### concrete instances on the example state `$ = {"a": [1, 2], "s": "hi", "u": <unset>}` -/
+
+def assign (l r : Expr) : Expr := .binary l r (tk .equal b!"=")
+def oldCellsSame (h h' : Heap) (except : List CellId) : Bool :=
+  (List.range h.cells.size).all (fun c => except.contains c || h'.get c == h.get c)
+
+/-- `$.u.k = 7`: the hypotheses of `assign_create_frame` / `assign_unset_base_object` hold (the
+    target is the stand-in cell 8 for member `k` of the unset cell 5) … -/
+example :
+    let r1 := evalExpr Program.empty 10 (dot (dot dollar b!"u") b!"k") exSt
+    let r2 := evalExpr Program.empty 10 (numL b!"7") (resState r1)
+    r1 = .ok 8 (resState r1) ∧ r2 = .ok 9 (resState r2) ∧
+    (resState r2).heap.get 8 = .nil (some ⟨5, .str b!"k"⟩) ∧ (resState r2).heap.get 5 = .unknown := by
+  refine ⟨eq_ok_of_resVal (by decide +kernel), eq_ok_of_resVal (by decide +kernel),
+    by decide +kernel, by decide +kernel⟩
+
+/-- … and its effect: `$.u` is now the fresh object `{k: 7}`, every other old cell, the array and
+    the root object are unchanged -/
+example : (match evalExpr Program.empty 12 (assign (dot (dot dollar b!"u") b!"k") (numL b!"7")) exSt with
+    | .ok c s' =>
+      s'.heap.get 5 == .obj 1 && s'.heap.obj 1 == [(b!"k", c)] &&
+      (F64.parse b!"7").map Val.num == some (s'.heap.get c) &&
+      oldCellsSame exHeap s'.heap [5] && s'.heap.arr 0 == exHeap.arr 0 && s'.heap.obj 0 == exHeap.obj 0
+    | _ => false) = true := by decide +kernel
+
+/-- `$.u[2] = 7`: `$.u` becomes `[null, null, 7]` -/
+example : (match evalExpr Program.empty 12 (assign (idx (dot dollar b!"u") (numL b!"2")) (numL b!"7")) exSt with
+    | .ok c s' =>
+      s'.heap.get 5 == .arr 1 && (s'.heap.arr 1).size == 3 &&
+      s'.heap.get ((s'.heap.arr 1).getD 0 0) == .nil none &&
+      s'.heap.get ((s'.heap.arr 1).getD 1 0) == .nil none && (s'.heap.arr 1).getD 2 0 == c &&
+      (F64.parse b!"7").map Val.num == some (s'.heap.get c) &&
+      oldCellsSame exHeap s'.heap [5] && s'.heap.arr 0 == exHeap.arr 0 && s'.heap.obj 0 == exHeap.obj 0
+    | _ => false) = true := by decide +kernel
+
+/-- `$.a[4] = 7`: `$.a` becomes `[1, 2, null, null, 7]`, with its first two cells as before -/
+example : (match evalExpr Program.empty 12 (assign (idx (dot dollar b!"a") (numL b!"4")) (numL b!"7")) exSt with
+    | .ok c s' =>
+      (s'.heap.arr 0).size == 5 && (s'.heap.arr 0).getD 0 0 == 2 && (s'.heap.arr 0).getD 1 0 == 3 &&
+      s'.heap.get ((s'.heap.arr 0).getD 2 0) == .nil none &&
+      s'.heap.get ((s'.heap.arr 0).getD 3 0) == .nil none && (s'.heap.arr 0).getD 4 0 == c &&
+      (F64.parse b!"7").map Val.num == some (s'.heap.get c) &&
+      oldCellsSame exHeap s'.heap [] && s'.heap.obj 0 == exHeap.obj 0
+    | _ => false) = true := by decide +kernel
+
+/-- `$.new = 7`: the root object gains the member `new`; every old cell and the array are unchanged -/
+example : (match evalExpr Program.empty 12 (assign (dot dollar b!"new") (numL b!"7")) exSt with
+    | .ok c s' =>
+      objLookup (s'.heap.obj 0) b!"new" == some c && objLookup (s'.heap.obj 0) b!"a" == some 1 &&
+      objLookup (s'.heap.obj 0) b!"s" == some 4 && objLookup (s'.heap.obj 0) b!"u" == some 5 &&
+      (F64.parse b!"7").map Val.num == some (s'.heap.get c) &&
+      oldCellsSame exHeap s'.heap [] && s'.heap.arr 0 == exHeap.arr 0
+    | _ => false) = true := by decide +kernel
 
 end Jqawk.C09
